@@ -90,10 +90,10 @@ def random_ops(r, n, nf=3, nh=3, budget=300, weak=True, ovr=True, meta=True, wri
             ops.append({"op": "ListMementos", "f": f, "limit": r.choice([0, 0, 1, 2])})
         elif x < 0.93 and meta and writes and live:
             f, h = r.choice(sorted(live))
-            ops.append({"op": "WriteMetadata", "f": f, "h": h, "mk": r.randint(1, 2), "b": r.randint(1, 3),
+            ops.append({"op": "WriteMetadata", "f": f, "h": h, "mk": r.choice([1, 2, 3]), "b": r.randint(1, 3),
                         "wd": r.random() < wd_p})
         elif x < 0.97 and meta:
-            ops.append({"op": "ReadMetadata", "f": f, "h": h, "mk": r.randint(1, 2)})
+            ops.append({"op": "ReadMetadata", "f": f, "h": h, "mk": r.choice([1, 2, 3])})
         elif weak:
             ops.append({"op": "Gc", "f": f, "h": h})
         else:
@@ -110,7 +110,7 @@ def meta_ops(r, n, nf=2, nh=2, budget=300):
         ops.append({"op": "Memoize", "f": f, "h": 1, "value": {"t": "bytes", "size": 60, "fill": f}, "ovr": 0})
         live.add((f, 1))
     for _ in range(n):
-        f, h, mk = r.randint(1, nf), r.randint(1, nh), r.randint(1, 2)
+        f, h, mk = r.randint(1, nf), r.randint(1, nh), r.choice([1, 1, 2, 2, 3])
         x = r.random()
         if x < 0.40 and live:
             f, h = r.choice(sorted(live))
@@ -129,6 +129,9 @@ def meta_ops(r, n, nf=2, nh=2, budget=300):
         elif x < 0.95:
             ops.append({"op": "ForgetFunction", "f": f})
             live = {k for k in live if k[0] != f}
+        elif live and r.random() < 0.5:
+            f, h = r.choice(sorted(live))
+            ops.append({"op": "ReadResult", "f": f, "h": h})
         else:
             ops.append({"op": r.choice(["ListFunctions", "IsMemoized", "Reopen"]), "f": f, "h": h})
     return ops
